@@ -37,6 +37,66 @@ def gates(root):
     return out
 
 
+def strip_hooks(text):
+    """source text without comments and without the items guarded by #[cfg(assert_struct_verif)] (the verification hooks)"""
+    text = re.sub(r"//[^\n]*", "", text)
+    text = re.sub(r"/\*.*?\*/", "", text, flags=re.S)
+    out = []
+    i = 0
+    pat = re.compile(r"#\[cfg\(assert_struct_verif\)\]")
+    while True:
+        m = pat.search(text, i)
+        if not m:
+            out.append(text[i:])
+            break
+        out.append(text[i:m.start()])
+        # skip the guarded item: up to the matching close of its first `{`, or to the first `;` if that comes first
+        j = m.end()
+        semi = text.find(";", j)
+        brace = text.find("{", j)
+        if brace == -1 or (semi != -1 and semi < brace):
+            i = (semi + 1) if semi != -1 else len(text)
+            continue
+        depth, k = 1, brace + 1
+        while k < len(text) and depth:
+            depth += {"{": 1, "}": -1}.get(text[k], 0)
+            k += 1
+        i = k
+    return "".join(out)
+
+
+def runtime_observations(root):
+    """what the runtime crate reads from its process environment, and the state it keeps between assertions:
+    (file, description) in source order.  The transition systems of Model/Shared.v have exactly this state."""
+    env, state = [], []
+    for path in sorted(vlib.walk(root, (".rs",))):
+        rel = os.path.relpath(path, vlib.REPO)
+        text = strip_hooks(open(path).read())
+        for m in re.finditer(r"\benv\s*::\s*(var_os|vars_os|var|vars|current_dir|current_exe|args_os|args|temp_dir|set_var|remove_var|home_dir|set_current_dir)\s*\(\s*([^)]*)\)", text):
+            arg = m.group(2).strip()
+            lit = re.fullmatch(r'"([^"]*)"', arg)
+            env.append((rel, "%s %s" % (m.group(1), lit.group(1) if lit else ("<dynamic>" if arg else "")) if (lit or arg) else m.group(1)))
+        for m in re.finditer(r"\b(?:option_env|env)\s*!\s*\(\s*\"([^\"]*)\"", text):
+            env.append((rel, "compile-time env! %s" % m.group(1)))
+        for m in re.finditer(r"\bis_terminal\s*\(([^)]*)\)", text):
+            env.append((rel, "is_terminal " + re.sub(r"\s+", "", m.group(1))))
+        # process-wide and per-thread state
+        tl_spans = []
+        for m in re.finditer(r"thread_local\s*!\s*\{", text):
+            depth, k = 1, m.end()
+            while k < len(text) and depth:
+                depth += {"{": 1, "}": -1}.get(text[k], 0)
+                k += 1
+            tl_spans.append((m.end(), k))
+            for n in re.finditer(r"\bstatic\s+(?:mut\s+)?(\w+)\s*:", text[m.end():k]):
+                state.append((rel, "thread_local " + n.group(1)))
+        for m in re.finditer(r"\bstatic\s+(mut\s+)?(\w+)\s*:", text):
+            if any(a <= m.start() < b for a, b in tl_spans):
+                continue
+            state.append((rel, ("static mut " if m.group(1) else "static ") + m.group(2)))
+    return env, state
+
+
 def features(manifest):
     t = manifest.get("features", {})
     return [(k, list(v)) for k, v in t.items()]
@@ -54,6 +114,8 @@ def facts():
         "edge_features": list(edge.get("features", [])),
         "runtime_gates": gates(os.path.join(vlib.REPO, "assert-struct", "src")),
         "macro_gates": gates(os.path.join(vlib.REPO, "assert-struct-macros", "src")),
+        "runtime_env": runtime_observations(os.path.join(vlib.REPO, "assert-struct", "src"))[0],
+        "runtime_state": runtime_observations(os.path.join(vlib.REPO, "assert-struct", "src"))[1],
         "runtime_regex_optional": bool(rt.get("dependencies", {}).get("regex", {}).get("optional", False))
         if isinstance(rt.get("dependencies", {}).get("regex"), dict) else False,
     }
@@ -82,8 +144,15 @@ Definition runtime_gates : list (string * string) := %s.
 
 (* every #[cfg(feature = "regex")] in assert-struct-macros/src *)
 Definition macro_gates : list (string * string) := %s.
+
+(* everything assert-struct/src reads from the environment of the running process (hooks excluded) *)
+Definition runtime_env_reads : list (string * string) := %s.
+
+(* every `static` and `thread_local!` of assert-struct/src (hooks excluded): the state that survives an assertion *)
+Definition runtime_shared_state : list (string * string) := %s.
 """ % (table(f["runtime_features"]), table(f["macro_features"]), "true" if f["edge_default"] else "false",
-       coq_list([coq_str(x) for x in f["edge_features"]]), glist(f["runtime_gates"]), glist(f["macro_gates"]))
+       coq_list([coq_str(x) for x in f["edge_features"]]), glist(f["runtime_gates"]), glist(f["macro_gates"]),
+       glist(f["runtime_env"]), glist(f["runtime_state"]))
     path = os.path.join(vlib.COQ, "gen", "RepoFacts.v")
     os.makedirs(os.path.dirname(path), exist_ok=True)
     if not os.path.exists(path) or open(path).read() != text:
